@@ -28,6 +28,7 @@ limitations under the License.
 #include <photon/net/socket.h>
 #include <photon/net/security-context/tls-stream.h>
 
+#include <photon/common/verif-hooks.h>
 using namespace std;
 
 namespace photon {
@@ -125,7 +126,10 @@ namespace rpc {
             }
             m_stream->timeout(args->timeout.timeout());
             DEFER(m_stream->timeout(-1));
+            VERIF_COV(C_RPC_BODY);
+            VERIF_EVENT(E_RPC_BODY_BEGIN, args->response, m_header.tag);
             auto ret = m_stream->readv((const iovec*)iov->iovec(), iov->iovcnt());
+            VERIF_EVENT(E_RPC_BODY_END, args->response, m_header.tag);
             // return 0 means it has been disconnected
             // should take as fault
             if (ret != m_header.size) {
